@@ -84,7 +84,7 @@ FutDef == {V.to_tla(set(c['Fut']))}
 ====
 """
     cfg = f"""SPECIFICATION Spec
-CONSTANTS NMsg = {c['NMsg']} NSub = {c['NSub']} Cap = {c['Cap']} Lazy = {V.to_tla(c['Lazy'])} Mode = "{c['Mode']}"
+CONSTANTS NMsg = {c['NMsg']} NSub = {c['NSub']} Cap = {c['Cap']} Lazy = {V.to_tla(c['Lazy'])} Mode = "{c['Mode']}" RepairedFetch = {V.to_tla(c.get('RepairedFetch', True))}
 Drive <- DriveDef
 Perm <- PermDef
 Fut <- FutDef
@@ -110,6 +110,7 @@ class MbRun:
         nmsg, nsub = c["NMsg"], c["NSub"]
         self.got = {i: [] for i in range(nsub)}
         self.sender_error = None
+        self.advances = []
         s = self.s = dsched.set_sched(dsched.Sched())
         outer = self
         self.futs = {n: dsched.DFuture() for n in c["Fut"]}
@@ -126,6 +127,7 @@ class MbRun:
 
             def __next__(self):
                 s.yield_point(("step", "SNext"))
+                outer.advances.append(outer.demand())
                 if self.i >= nmsg:
                     raise StopIteration
                 self.i += 1
@@ -188,6 +190,13 @@ class MbRun:
                     got=tuple(tuple(self.got[i]) for i in range(self.c["NSub"])),
                     futDone=frozenset(n for n, f in self.futs.items() if f.done()))
 
+    def demand(self):
+        """Is a driving subscriber waiting for a message that has not been produced yet? (C13, lazy mode)"""
+        mb = self.mb
+        box = {n for n, _ in mb._mailbox}
+        return bool(mb.killed or any(d and w is not None and w not in box
+                                     for d, w in zip(mb._subscriber_can_drive, mb._subscriber_waiting_for)))
+
     def wants(self):
         d = {}
         for t in self.s.tasks:
@@ -209,6 +218,28 @@ def thread_of(action):
         return "S"
     k = re.search(r"\((\d+)\)", action).group(1)
     return ("W" if action.startswith("W") else "R") + k
+
+
+def trace_threads(trace):
+    """Acting thread of every step of a TLC error trace (action names there carry no parameters)."""
+    out = []
+    for (a0, s0), (a1, s1) in zip(trace, trace[1:]):
+        if a1.startswith("S"):
+            out.append("S")
+        elif a1.startswith("W"):
+            (n,) = set(s1["futDone"]) - set(s0["futDone"])
+            out.append(f"W{n}")
+        else:
+            who = None
+            for i in range(len(s1["rpc"])):
+                if any(s0[k][i] != s1[k][i] for k in ("rpc", "rnext", "ryield", "got", "waitFor", "haveRead")):
+                    who = i + 1
+            if who is None:
+                for (t, f) in s0["wRead"]:
+                    if f and (t, False) in s1["wRead"]:
+                        who = t
+            out.append(f"R{who}")
+    return out
 
 
 def compare(spec_state, run, c):
@@ -304,7 +335,7 @@ def job(arg):
         return res
     if r.violated or r.deadlock:
         # design-level counterexample: replay on the real code, judge at P-level
-        path = [thread_of(a) for a, _ in r.trace[1:]]
+        path = trace_threads(r.trace)
         bad, tr = run_schedule(c, lambda en: en[0], prefix=path)
         if bad:
             res["violations"].append(dict(sig=f"C05:{name}:spec-{r.violated or 'deadlock'}", text="; ".join(bad),
